@@ -1117,8 +1117,8 @@ example : TwoRun 0 1 3 5 4800 4900 (cfgR.formTime 10) netL evsT :=
 /-! ## The first answered GAP request (cold start of two stations, phase (b'): request – pause – reply – reception) -/
 
 /-- **A GAP request to a listening station is answered "not ready" and the reply is received** (C02 / C12 on the
-bus, any lag).  Two station models on the byte-accurate bus.  Start (`HQ`, first alternative `HQ0`): the claimant `x`
-(address `aL`, `ClaimToken`, scanning) has just put the GAP request to the address `aH` of the listener `y` on the
+bus, any lag).  Two station models on the byte-accurate bus.  Start (`HQ`, first alternative `HQ0`): the requester `x`
+(address `aL`; in `ClaimToken`, scanning, or the token holder in `AwaitStatusResponse`; its view the one-station ring) has just put the GAP request to the address `aH` of the listener `y` on the
 bus at `r` and awaits the reply; the log is the lone transmitter's; `y` is in `ListenToken`, satisfies the listener
 condition `LLOkX` with the request among the transmissions it has not consumed yet (arbitrary lag), and will not be
 ready when it has heard everything up to the request (`hnr`; ready needs two complete rotations).  Every station is
